@@ -7,7 +7,9 @@ import (
 	"path/filepath"
 	"sort"
 	"strconv"
+	"strings"
 	"sync"
+	"time"
 
 	"pgregory.net/rapid"
 )
@@ -194,6 +196,9 @@ func sortedKeys(m map[string]int) []string {
 func guard(rt *rapid.T, prog *Program, body func()) {
 	journal(prog)
 	defer journalDone(prog)
+	done := make(chan struct{})
+	defer close(done)
+	go hangWatch(prog, done)
 	defer func() {
 		if r := recover(); r != nil {
 			if isRapidPanic(r) {
@@ -205,4 +210,55 @@ func guard(rt *rapid.T, prog *Program, body func()) {
 		}
 	}()
 	body()
+}
+
+// hangWatch: a case normally takes milliseconds. If it is still running after two
+// minutes and every goroutine that is inside the sod package waits for a lock on
+// two samples, the case is a deadlock: it is recorded as the failing case and the
+// process exits (the driver reports it). A case that is merely slow is left alone
+// (the go test timeout then makes the shard inconclusive, never a violation).
+func hangWatch(prog *Program, done chan struct{}) {
+	select {
+	case <-done:
+		return
+	case <-time.After(120 * time.Second):
+	}
+	stuck := func() (bool, string) {
+		all, found := true, 0
+		var lines []string
+		for _, g := range dumpGoroutines() {
+			if !strings.Contains(g.stack, "github.com/0xrawsec/sod.") {
+				continue
+			}
+			found++
+			in := false
+			for _, ls := range lockStates {
+				if g.state == ls {
+					in = true
+				}
+			}
+			if !in {
+				all = false
+			}
+			top := g.stack
+			if parts := strings.SplitN(g.stack, "\n", 10); len(parts) > 9 {
+				top = strings.Join(parts[:9], "\n")
+			}
+			lines = append(lines, top)
+		}
+		return all && found > 0, strings.Join(lines, "\n---\n")
+	}
+	s1, _ := stuck()
+	time.Sleep(3 * time.Second)
+	select {
+	case <-done:
+		return
+	default:
+	}
+	s2, summary := stuck()
+	if s1 && s2 {
+		recordFailure(prog, "hang: the case did not finish within 120 s and every goroutine inside the sod package waits for a lock:\n"+summary)
+		writeStats()
+		os.Exit(3)
+	}
 }
